@@ -46,10 +46,8 @@ Definition ident (k : hkind) : mexp :=
 Definition group_law (k : hkind) : bool :=
   meqb (MMul (msubst [Var 0] (closed k)) (msubst [Var 1] (closed k))) (msubst [Add (Var 0) (Var 1)] (closed k)).
 Definition unit_law (k : hkind) : bool := meqb (msubst [Num 0] (closed k)) (ident k).
-(* closed(phi) commutes with the generator, and closed(phi) = cos-part + (-i) sin-part * P in the sense
-   closed(phi) - closed(-phi) = -2i sin(phi')/norm * P  is not expressible without matrix sums; instead:
-   the generator is recovered at the quarter period:  closed_x(pi/2) = -i sigma_x, closed_z(pi/2) = -i sigma_z,
-   closed_xy(pi/4) = identity on |00>,|11> and -i sigma_x on the exchange block (= 1 - (P/2)^2 - i P/2) *)
+(* the generator is recovered at the quarter period: closed_x(pi/2) = -i sigma_x, closed_z(pi/2) = -i sigma_z,
+   closed_xy(pi/4) = identity on |00>,|11> and -i sigma_x on the exchange block *)
 Definition quarter (k : hkind) : bool :=
   match k with
   | HX => meqb (msubst [Div Pi (Num 2)] closed_x) (MScale mI pauli_x)
